@@ -14,7 +14,7 @@ RULE = ("One Hypothesis binary draw is decoded into a project: version pattern (
         "when {pep440_version} patterns are used), reachable state, 1..5 files x 1..4 search patterns each ({version}, "
         "{pep440_version}, explicit full pattern, partial pattern over a subset of the version's fields with alternate part "
         "spellings) wrapped in unique delimiters, occurrences on own or shared lines, LF/CRLF/CR/mixed endings, with or "
-        "without final newline, glob entry + explicit entry for a globbed file, optional explicit config entry, bystander "
+        "without final newline, glob entry + explicit entry for a globbed file, a glob entry that also covers the config file, optional explicit config entry, bystander "
         "files; flags/date chosen so that a bump is likely. Real `update` (commit off). Oracle when exit 0: the announced "
         "version N has a unique reference parse E; EVERY file must equal, byte for byte, its template re-filled with E "
         "({pep440_version} holes: canonical PEP 440 of N, or any PEP 440-equal spelling); the config holds N; `show` prints N. "
@@ -29,7 +29,7 @@ def build(d):
     nodes, state, text = (grammar.gen_pep440_pattern_and_state(d) if pep else grammar.gen_pattern_and_state(d, safe_seps=True))
     if nodes is None:
         return {"discard": state}
-    spec = projgen.gen_project(d, nodes, state, pep_shaped=pep, regimes=["lf", "lf", "crlf", "cr", "mixed"])
+    spec = projgen.gen_project(d, nodes, state, pep_shaped=pep, regimes=["lf", "lf", "crlf", "cr", "mixed"], cover_config=d.chance(1, 4))
     flags, date = projgen.gen_bump(d, nodes, state)
     return {"spec": spec, "flags": flags, "date": date}
 
@@ -109,6 +109,8 @@ def check(case):
         classes.append("two-occurrences-share-a-line")
     if any("*" in key for key, _ in spec["entries"]):
         classes.append("glob-entry")
+    if spec.get("config_marks"):
+        classes.append("glob-covers-config-file")
     if any(p["kind"] == "partial" for p in spec["patterns"]):
         classes.append("partial-pattern")
     if any(p["kind"] == "pep" for p in spec["patterns"]):
